@@ -213,7 +213,9 @@ def run(res, tier):
     # ---- valgrind subset: uninitialised values in the file readers ...
     vexe = pl.build.build_bin("vg")
     vcases = [c for c in filecases if any(t in c[0] for t in ("(none)", "lines=empty", "lines=short", "lines=text", "lines=valid", "lines=nan", "lines=naninf", "lines=inside"))]
-    vcases = vcases[:300] if tier == "thorough" else [c for c in vcases if c[0].count(",") == 0][:14]
+    # every kind of input file (impedance table, impedance table alone, tracking file, start distribution): all files of at most one line
+    # (thorough: two lines) over these templates - the selection is made per kind, not from the head of the list
+    vcases = [c for c in vcases if c[0].count(",") <= (1 if tier == "thorough" else 0)]
     # ... and in every single deviation of the configuration domain (uninitialised values are invisible to the sanitizer build)
     vcases = [c for c in cases if c[0] == "base" or c[0].startswith("dev1 ")] + vcases
 
